@@ -1,6 +1,9 @@
 package main
 
 import (
+	"fmt"
+
+	"github.com/6tail/lunar-go/LunarUtil"
 	"github.com/6tail/lunar-go/calendar"
 )
 
@@ -40,6 +43,8 @@ func pillarObs(l *calendar.Lunar) obj {
 		ec.SetSect(1)
 		o["ec1"] = []string{ec.GetYear(), ec.GetMonth(), ec.GetDay(), ec.GetTime()}
 		s1 := ec.String()
+		// the deprecated array accessor follows the convention in force on the chart
+		o["bz1"] = l.GetBaZi()
 		ec.SetSect(2)
 		o["ec2"] = []string{ec.GetYear(), ec.GetMonth(), ec.GetDay(), ec.GetTime()}
 		// the chart as it prints itself under each convention (the four pillars separated by blanks)
@@ -62,7 +67,31 @@ func pillarObs(l *calendar.Lunar) obj {
 	return o
 }
 
+// the public helper that maps a clock string to the hour branch: every minute of the day as "HH:mm", and with
+// seconds appended (the helper documents "HH:mm", longer strings are cut)
+func c05ClockStrings(c *ctx) {
+	rows := [][]interface{}{}
+	for h := 0; h < 24; h++ {
+		for mi := 0; mi < 60; mi++ {
+			for form, s := range []string{fmt.Sprintf("%02d:%02d", h, mi), fmt.Sprintf("%02d:%02d:30", h, mi), fmt.Sprintf("%02d:%02d:59", h, mi)} {
+				if form > 0 && mi != 59 && mi != 0 && (h*60+mi)%7 != 0 {
+					continue
+				}
+				idx, name, pan := -1, "", 0
+				if p, _ := try(func() { idx, name = LunarUtil.GetTimeZhiIndex(s), LunarUtil.ConvertTime(s) }); p {
+					pan = 1
+				}
+				rows = append(rows, []interface{}{h, mi, form, idx, name, pan})
+			}
+		}
+	}
+	c.emit(obj{"ev": "C05Clock", "rows": rows})
+}
+
 func c05Years(c *ctx) {
+	if c.shard == 0 {
+		c05ClockStrings(c)
+	}
 	years := c.yearsFor(append(append([]int{}, c05Boundary...), termEdgeYears(c.argInt("edge", 60), true)...), c.argInt("years", 150), 1, 9998)
 	for _, y := range years {
 		if !c.mine(y) {
